@@ -80,4 +80,66 @@ def run(prog):
                             "; ".join(errs) if errs else "row number = nodes.len() - 1 after the push; table and pointer agree"))
     if n < 3:
         raise CheckerError("SR: only %d row pushes found (expected 3)" % n)
+    out += roots(prog)
+    return out
+
+
+def roots(prog):
+    """SR-root: the pointer a serialiser's public entry hands to its recursive helper is the caller's pointer itself.
+    The helper decides for every kind of pointer how it is written (constants and literals as leaves carrying their own
+    polarity, nodes as (row, complement flag)); an entry point that first rewrites the pointer (`to_reg`, a sign strip)
+    and re-attaches "the" polarity afterwards is only right for the kinds whose image has a complement flag.  For a
+    rewriting function the rule evaluates it per variant of the pointer type: a leaf variant (a constant, a literal)
+    must be mapped to itself."""
+    from . import canon
+    out = []
+    for f in prog.lib_fns:
+        if "serialize::" not in f.npath or f.kind == "Closure" or "::test" in f.npath or f.name in ("serialize_helper",):
+            continue
+        for g in canon.local_bodies(prog, f, ok=lambda h: False):
+            for cs in g.terms.calls:
+                if cs.callee.name != "serialize_helper" or not cs.args or "serialize_helper" in g.npath:
+                    continue
+                a = strip(cs.args[0])
+                key = "%s:root-as-given" % f.npath
+                base = a
+                while base[0] in ("deref", "copy") or (mir.is_call(base) and base[1].name in ("clone", "copied", "cloned", "deref") and base[2]):
+                    base = strip(base[1] if base[0] in ("deref", "copy") else base[2][0])
+                if base[0] == "param" or (base[0] == "field" and "next(" in show(base)) or base[0] == "upvar":
+                    out.append(inst("SR", key, OK, f, cs.line, "the helper is given the caller's pointer"))
+                    continue
+                if not (mir.is_call(a) and len(a[2]) == 1 and (a[1].local or getattr(a[1], "res_local", False))):
+                    out.append(inst("SR", key, UNDECIDED, f, cs.line, "the helper is given %s" % show(a)[:50]))
+                    continue
+                hs = [h for h in prog.resolve(a[1]) if h.kind != "Closure"]
+                adt = None
+                for n_, d in prog.adts.items():
+                    if n_.endswith("SddPtr") and "SddPtr" in show(a) + (hs[0].locals[1]["s"] if hs else ""):
+                        adt = d
+                    if n_.endswith("::BddPtr") and hs and "BddPtr" in hs[0].locals[1]["s"]:
+                        adt = d
+                if len(hs) != 1 or adt is None:
+                    out.append(inst("SR", key, UNDECIDED, f, cs.line, "the helper is given %s" % show(a)[:50]))
+                    continue
+                h = hs[0]
+                errs = []
+                for var in adt["variants"]:
+                    vn = var["name"]
+                    if var["fields"] and any("&" in (fl.get("ty") or "") for fl in var["fields"]):
+                        continue            # node variants: they carry a complement flag
+                    rs = canon.paths_under(h, ("param", 1), vn)
+                    if rs is None:
+                        errs.append("?%s not evaluated for %s" % (h.name, vn))
+                        continue
+                    for r in rs:
+                        r = strip(r)
+                        same = r == ("param", 1) or (r[0] in ("deref", "copy") and strip(r[1]) == ("param", 1))
+                        if r[0] == "agg" and r[3] == vn:
+                            # rebuilt: every payload must be the original's
+                            same = all(strip(o)[0] in ("field", "deref", "copy") and "param" in repr(strip(o)) for o in r[4])
+                        if not same:
+                            errs.append("`%s` maps the %s pointer to %s before it is serialised, and the polarity re-attached afterwards "
+                                        "is dropped for leaves: a %s root is written as its opposite" % (h.name, vn, show(r)[:30], vn))
+                out.append(inst("SR", key, VIOLATION if [e for e in errs if not e.startswith("?")] else (UNDECIDED if errs else OK), f, cs.line,
+                                "; ".join(e.lstrip("?") for e in errs[:2]) if errs else "the rewriting `%s` is the identity on constants and literals" % h.name))
     return out
